@@ -214,6 +214,11 @@ def opaque_obj(I, name, methods, ci=None, rewrite=None):
         def h(I_, obj, args, kwargs):
             if rewrite and mname in rewrite:
                 return rewrite[mname](I_, obj, args, kwargs)
+            # positional arguments are the documented parameters in order: the same call whichever way it is spelled
+            ps_ = list(obj.opaque_params.get(mname, ()))
+            if args and len(args) <= len(ps_) and not any(p_ in kwargs for p_ in ps_[:len(args)]):
+                kwargs = dict(kwargs, **dict(zip(ps_, args)))
+                args = []
             s = ','.join('%s=%s' % (k, sig(kwargs[k])) for k in sorted(kwargs))
             if args:
                 s = ','.join(sig(a) for a in args) + ';' + s
